@@ -427,6 +427,12 @@ func (set *Set) MarkHostHealthy(host *Host) bool {
 	if member, ok := set.all[host.Addr]; !ok || member != host {
 		return false
 	}
+	// The flag is flipped before the lock is taken, a concurrent mark in
+	// the other direction may have passed by since. Follow the flag as
+	// it is now, the last one to get here leaves the two in step.
+	if !host.IsHealthy() {
+		return false
+	}
 	set.addToHealthy(host)
 	return true
 }
@@ -441,6 +447,10 @@ func (set *Set) MarkHostUnhealthy(host *Host) bool {
 	// the host may have been removed or replaced (same address, new
 	// object) since the caller got it, only the member itself counts.
 	if member, ok := set.all[host.Addr]; !ok || member != host {
+		return false
+	}
+	// see MarkHostHealthy
+	if host.IsHealthy() {
 		return false
 	}
 	set.removeFromHealthy(host)
